@@ -281,19 +281,4 @@ HoldsC02(cl, o) ==
       [] cl = "NothingMissing"     -> \A k \in DocKinds : ExpectSet(o, k) \subseteq Range(doc.defs[k])
       [] cl = "NothingUnreachable" -> \A k \in DocKinds : Range(doc.defs[k]) \subseteq ExpectSet(o, k)
 
-(* C18: in.audio = "none" | "str" | "path"; in.place = "inside" | "outside"; out.paths per cycle:           *)
-(*   stored: <<"rel" | "abs" | "other">> per recording in the document: is the stored path exactly the      *)
-(*           recording's path relative to the audio directory (rel) / unchanged (abs)                        *)
-(*   loadedB: <<"B/x" ...>> per recording reachable from the object loaded under directory B: "ok" iff it   *)
-(*           equals B joined with the stored relative path                                                   *)
-C18Clauses == {"StoredIsRelative", "Relocates", "PassThroughWithoutDir", "OutsideRaises", "NothingWrittenOnError"}
-HoldsC18(cl, o) ==
-  LET p == o.out.paths IN
-  CASE cl = "StoredIsRelative" -> (o.in.audio # "none" /\ o.in.place = "inside") => p.saved = "" /\ \A j \in DOMAIN p.stored : p.stored[j] = "rel"
-    [] cl = "Relocates"        -> (o.in.audio # "none" /\ o.in.place = "inside" /\ p.saved = "") =>
-                                     p.loaded = "" /\ Len(p.relocated) = Len(p.stored) /\ \A j \in DOMAIN p.relocated : p.relocated[j] = "ok"
-    [] cl = "PassThroughWithoutDir" -> o.in.audio = "none" => p.saved = "" /\ p.loaded = "" /\ (\A j \in DOMAIN p.stored : p.stored[j] = "abs")
-                                                              /\ (\A j \in DOMAIN p.relocated : p.relocated[j] = "ok")
-    [] cl = "OutsideRaises"    -> (o.in.audio # "none" /\ o.in.place = "outside") => p.saved # "" 
-    [] cl = "NothingWrittenOnError" -> p.saved # "" => ~p.file_exists
 =============================================================================
